@@ -276,13 +276,34 @@ fn merge_corner(idx: u64) -> Option<(Vec<Vec<Entry>>, bool)> {
         8 => Some((vec![vec![e(b"k", token(1, 1, 10000))], vec![e(b"k", token(2, 1, 6384))]], true)),
         9 => Some((vec![vec![e(b"k", token(1, 1, 100))], vec![e(b"k", token(2, 1, 28))], vec![e(b"z", token(3, 1, 128))]], true)),
         10 => Some((vec![vec![e(b"k", token(1, 1, 16383))], vec![e(b"k", token(2, 1, 5))], vec![e(b"k", vec![])]], true)),
+        // holder-count ladders: for every h in 1..=34 one key held by exactly h sources (the first h,
+        // the last h, every h-th from a rotating start), so that every number of values a merge call
+        // can receive up to 34 occurs, with a merge function that shows each of them
+        11 | 12 | 13 => {
+            let n = 34usize;
+            let mut srcs: Vec<Vec<Entry>> = vec![Vec::new(); n];
+            for h in 1..=n {
+                let key = vec![b'h', h as u8];
+                let holders: Vec<usize> = match idx {
+                    11 => (0..h).collect(),
+                    12 => (n - h..n).collect(),
+                    _ => (0..h).map(|j| (j * 7 + h) % n).collect::<std::collections::BTreeSet<_>>().into_iter().collect(),
+                };
+                for s in holders {
+                    let pos = srcs[s].len() + 1;
+                    srcs[s].push((key.clone(), token(s + 1, pos, 5 + (h + s) % 3)));
+                }
+            }
+            Some((srcs, idx == 12))
+        }
         _ => None,
     }
 }
 
 pub fn scn_merge(out: &mut TraceOut, r: &mut R, idx: u64, heavy: bool) {
     if let Some((srcs, stream_writer)) = merge_corner(idx) {
-        return run_merge(out, r, idx, srcs, None, Some(stream_writer));
+        let mf = if (11..=13).contains(&idx) { Some(Mf::Concat) } else { None };
+        return run_merge(out, r, idx, srcs, None, Some(stream_writer), mf);
     }
     // corner patterns first
     let k = match idx {
@@ -325,10 +346,10 @@ pub fn scn_merge(out: &mut TraceOut, r: &mut R, idx: u64, heavy: bool) {
         }
         cfgs.push(cfg);
     }
-    run_merge(out, r, idx, srcs, Some(cfgs), None)
+    run_merge(out, r, idx, srcs, Some(cfgs), None, None)
 }
 
-fn run_merge(out: &mut TraceOut, r: &mut R, idx: u64, srcs: Vec<Vec<Entry>>, cfgs: Option<Vec<Cfg>>, force_writer: Option<bool>) {
+fn run_merge(out: &mut TraceOut, r: &mut R, idx: u64, srcs: Vec<Vec<Entry>>, cfgs: Option<Vec<Cfg>>, force_writer: Option<bool>, force_mf: Option<Mf>) {
     let cfgs: Vec<Cfg> = cfgs.unwrap_or_else(|| srcs.iter().map(|_| Cfg::default_small()).collect());
     let sources = Sources::new(srcs);
     let dict = Dict::build(sources.srcs.iter().flat_map(|s| s.iter().map(|(k, _)| k.clone())));
@@ -346,6 +367,7 @@ fn run_merge(out: &mut TraceOut, r: &mut R, idx: u64, srcs: Vec<Vec<Entry>>, cfg
         }
     }
     let mf = if r.gen_bool(0.75) { Mf::Concat } else { Mf::First };
+    let mf = force_mf.unwrap_or(mf);
     let mfname = if mf == Mf::Concat { "concat" } else { "first" };
     let stream_writer = force_writer.unwrap_or_else(|| r.gen_bool(0.35));
     let how = r.gen_range(0..3);
